@@ -81,6 +81,7 @@ namespace vs
         std::int64_t clock_ns{0};
         std::uint64_t clock_reads{0};
         bool atomic_points{true};                         // scheduling points at hooked lock-free flag accesses
+        bool trylock_seen{false};                         // some code path uses pthread_mutex_trylock: add scheduling points inside critical sections
         bool spurious{false};                             // offer spurious wake-ups of condition waiters as a (costly) deviation
         std::uint64_t spurious_wakes{0};
         std::int64_t clock_jump_ns{0};                    // != 0: every clock read is a choice point {stand still, jump ahead by this much}
@@ -236,11 +237,15 @@ namespace vs
         self.state = St::Runnable;
         s.owner[m] = tl_tid;
         ++s.depth[m];
+        // Holding a mutex is observable to other threads only through trylock. Once any trylock has been seen in this process (sticky; the
+        // warm-up executions see it first), a thread may also be preempted right after acquiring a lock, so that "trylock finds it busy" is explored.
+        if (s.trylock_seen) reschedule(s, "after-lock", true);
         return 0;
     }
     inline int m_trylock(pthread_mutex_t *m)
     {
         Sched &s = S();
+        s.trylock_seen = true;
         if (is_shared(s, m)) reschedule(s, "before-trylock", true);
         if (!mutex_free(s, m) && s.owner[m] != tl_tid) return EBUSY;
         s.owner[m] = tl_tid;
